@@ -6,6 +6,7 @@ pub mod fuzzdec;
 pub mod cellinfo;
 pub mod gen;
 pub mod known;
+pub mod meta;
 pub mod obs;
 pub mod props;
 pub mod refcmp;
